@@ -1,6 +1,7 @@
 import MosnVerif.Drive.Util
 import MosnVerif.Model.FilterSpec
 import MosnVerif.Drive.C14Mx
+import MosnVerif.Model.FilterRegs
 /-!
 Driver of C14.  Case line (harness/c14):
 
@@ -224,9 +225,60 @@ def chain (recv send : String) (envToks impl : List String) : String :=
     s!"{if agree then "A" else "D"} {if sp then "S" else "V"} {joinWith "," modelToks}"
   | _, _, _ => "E E bad-case"
 
+/-! ### kind rg (round 7): registrations (filter object, phase); one object registered several times
+
+  C14 rg <object per receiver registration> <object per sender registration> <recv chain> <send chain> <environment>
+         => <tokens of kind ch> od=<object>:<OnDestroy calls>,… | od=-
+  object lists `,`-separated, `x` = a plain filter (an object of its own), `-` = empty.  Registration `i` is filter `i` of the
+  chain tokens (phase and script of its own): the model and the predicate of kind ch apply as they are
+  (`Model.FilterRegs.toChain`); on top, the OnDestroy calls per shared object: model = regenerated registration
+  (`Model.FilterRegs.build`) + regenerated `OnDestroy` when the stream is cleaned; predicate = one call per registration
+  (`destroyCount`), none while the stream is not finished. -/
+
+def parseObjs (s : String) : Option (List (Option Nat)) :=
+  if s == "-" then some []
+  else (s.splitOn ",").mapM (fun t => if t == "x" then some none else t.toNat?.map some)
+
+def countTok (objs : List Nat) (count : Nat → Nat) : String :=
+  let ids := (objs.foldl (fun acc o => if acc.contains o then acc else acc ++ [o]) []).mergeSort (· ≤ ·)
+  let parts := (ids.filter (fun o => count o > 0)).map (fun o => s!"{o}:{count o}")
+  if parts.isEmpty then "-" else joinWith "," parts
+
+def regsCase (robj sobj recv send : String) (envToks impl : List String) : String :=
+  match parseObjs robj, parseObjs sobj, parseRecv recv, parseSend send with
+  | some ro, some so, some r, some sd =>
+    if ro.length != r.length || so.length != sd.length then "E E bad-regs" else
+    -- plain filters are objects of their own: ids outside the shared range
+    let rids := ro.zipIdx.map (fun oi => match oi.1 with | some o => o | none => 100000 + oi.2)
+    let sids := so.zipIdx.map (fun oi => match oi.1 with | some o => o | none => 200000 + oi.2)
+    let regs : List Model.FilterRegs.Reg := (rids.zip r).map (fun of => ⟨of.1, of.2.phase⟩)
+    let pairs := (ro.zip r).filterMap (fun of => of.1.map (fun o => (o, of.2.phase)))
+    if !pairs.Nodup then "E E same-object-twice-in-a-phase" else
+    let shared := (ro ++ so).filterMap id
+    let od := ((impl.find? (fun t => t.startsWith "od=")).map (fun t => (t.drop 3).toString)).getD "?"
+    let impl' := impl.filter (fun t => !t.startsWith "od=")
+    let base := chain recv send envToks impl'
+    match base.splitOn " " with
+    | a :: sp :: rest =>
+      let modelToks := joinWith " " rest
+      let modelDone := (modelToks.splitOn ",").contains "done=1"
+      -- model: the chain the regenerated Add… calls build, destroyed by the regenerated OnDestroy when the stream is cleaned
+      let built := Model.FilterRegs.build regs sids
+      let destroyed := if modelDone then Gen.FilterRegs.onDestroy built else []
+      let modelOd := countTok shared (fun o => destroyed.count o)
+      -- predicate on the implementation's tokens: one OnDestroy per registration once the stream is finished, none before
+      let implDone := impl'.contains "done=1"
+      let specOd := countTok shared (fun o => if implDone then Model.FilterRegs.destroyCount regs sids o else 0)
+      let agree := a == "A" && od == modelOd
+      let ok := sp == "S" && od == specOd
+      s!"{if agree then "A" else "D"} {if ok then "S" else "V"} {modelToks},od={modelOd}"
+    | _ => base
+  | _, _, _, _ => "E E bad-case"
+
 def run (caseToks impl : List String) : String :=
   match caseToks with
   | "ch" :: recv :: send :: envToks => chain recv send envToks impl
+  | "rg" :: robj :: sobj :: recv :: send :: envToks => regsCase robj sobj recv send envToks impl
   | "mx" :: toks => C14Mx.runMx toks impl
   | _ => "E E unknown-kind"
 
